@@ -476,6 +476,28 @@ PROPS = {
                     "harness-typed/build.rs derives the type descriptions from the parser's AST and the names of inline types "
                     "from the service and item names"],
     },
+    "C18": {
+        "props_module": "Aldrin.Props.C18",
+        "namespace": "Aldrin.Schema",
+        "level": "proof",
+        "run": generic_run("fmtc", {"sast", "sfmt"}, {"C18"}, {"quick": (1500, 4), "thorough": (20000, 14)},
+                           canon=None, corpus="fmt.txt",
+                           rule="random schema sources as text: every construct of the grammar (imports, structs, enums, newtypes, "
+                                "consts of all kinds, services with functions / events in all body forms, inline structs and enums, "
+                                "fallbacks in both orders, attributes, file / item / inline doc strings, comments wherever the grammar "
+                                "allows them) with random layout (all kinds of Unicode white space, CRLF, missing or excessive blanks), "
+                                "odd but legal spellings (keywords as names, names that start with type keywords, negative / huge / "
+                                "zero-padded ids, mixed-case uuids, escapes in strings, empty and blank comments, 4-slash docs); 1 in 4 "
+                                "sources damaged by one edit (delete / insert / replace a character, truncate). Per source two request "
+                                "lines: canonical AST dump (parser) and formatted text (formatter), `err` for syntax errors. "
+                                "Implementation-only oracles for every source that parses: the formatted text parses, to the same "
+                                "schema with imports as a sorted list, formatting it again changes nothing, the errors and warnings "
+                                "(titles of the rendered diagnostics) are the same, nothing panics"),
+        "trusted": ["modelled, not verified: identifiers are ASCII only (XID_START / XID_CONTINUE outside ASCII are not modelled; the "
+                    "generator does not produce them); validation (errors, warnings) is not modelled, the clause about equal "
+                    "diagnostics is an implementation-only oracle", "pest's PEG semantics (ordered choice, greedy repetition without "
+                    "backtracking, implicit white space between sequence elements of non-atomic rules) as read from its documentation"],
+    },
     "C19": {
         "props_module": "Aldrin.Props.C19",
         "namespace": "Aldrin.Disc",
